@@ -8,6 +8,7 @@
   on the whole table.
 -/
 import Pongo.Lemmas.LexPos
+import Pongo.Lemmas.RenderText
 import Pongo.Gen.LexTables
 
 namespace Pongo.C06
@@ -124,5 +125,33 @@ theorem text_tokens_are_source_text (s : Bytes) (toks : List Tok) (h : lex Gen.l
   rw [h] at this
   intro t ht
   exact (this t ht).2.2
+
+/-! ### literal text through the whole pipeline (lexer, parser, interpreter of the model) -/
+
+/-- **A source without an opening delimiter renders to itself** — compiled by the model's parser
+    from the lexer's tokens and executed by the model's interpreter, for every such byte string,
+    every set configuration (`TrimBlocks`/`LStripBlocks` included) and every sufficient fuel. -/
+theorem literal_source_renders_to_itself (cfg : SetCfg) (fuel : Nat) (name : Bytes) (isString : Bool) (s : Bytes)
+    (hn : noOpen s = true) (hne : s ≠ []) :
+    ∃ cs σ', compileTpl Gen.lexTables cfg (fuel + 4) {} name isString s = .ok (0, cs) ∧
+      (executeTplUnbuffered Gen.lexTables cfg [] (fuel + 3) 0 []).run { cs := cs } = .ok () σ' ∧ σ'.out = s := by
+  have hl := gen_text_identity s hn hne
+  obtain ⟨σ', h1, h2⟩ := exec_textTpl Gen.lexTables cfg fuel name isString s { cs := { tpls := #[textTpl cfg name isString s] } } rfl
+  exact ⟨{ tpls := #[textTpl cfg name isString s] }, σ', compile_text Gen.lexTables cfg fuel name s isString _ rfl hl, h1, by simpa using h2⟩
+
+/-- **A verbatim block renders its body, byte for byte** (the body may contain any delimiters). -/
+theorem verbatim_block_renders_its_body (cfg : SetCfg) (fuel : Nat) (name : Bytes) (isString : Bool) (body : Bytes) (hb : body ≠ [])
+    (hk : ∀ k, k < body.length → Gen.lexTables.verbEnd.isPrefixOf ((body ++ Gen.lexTables.verbEnd).drop k) = false) :
+    ∃ cs σ', compileTpl Gen.lexTables cfg (fuel + 4) {} name isString
+        (Gen.lexTables.verbStart ++ (body ++ Gen.lexTables.verbEnd)) = .ok (0, cs) ∧
+      (executeTplUnbuffered Gen.lexTables cfg [] (fuel + 3) 0 []).run { cs := cs } = .ok () σ' ∧ σ'.out = body := by
+  have hl := gen_verbatim_literal body hk
+  simp only [hb, ↓reduceIte] at hl
+  obtain ⟨σ', h1, h2⟩ := exec_textTpl Gen.lexTables cfg fuel name isString body { cs := { tpls := #[textTpl cfg name isString body] } } rfl
+  exact ⟨{ tpls := #[textTpl cfg name isString body] }, σ', compile_text Gen.lexTables cfg fuel name _ isString _ rfl hl, h1, by simpa using h2⟩
+
+example (cfg : SetCfg) : ∃ cs σ', compileTpl Gen.lexTables cfg 4 {} b!"t" true b!"a } b % c" = .ok (0, cs) ∧
+    (executeTplUnbuffered Gen.lexTables cfg [] 3 0 []).run { cs := cs } = .ok () σ' ∧ σ'.out = b!"a } b % c" :=
+  literal_source_renders_to_itself cfg 0 _ _ _ (by decide) (by decide)
 
 end Pongo.C06
